@@ -509,7 +509,7 @@ def pp_repr(pp):
 # ----------------------------------------------------------------------------- O2 sweeper one-shot
 
 def check_sweeper_one_shot(ck, I, mp):
-    ncases = 30 if ck.tier == 'quick' else 150
+    ncases = 30 if ck.tier == 'quick' else 400
     worst = 0.0
     ntimeouts = 0
     for _ in range(ncases):
@@ -576,7 +576,7 @@ def check_sweeper_one_shot(ck, I, mp):
 # ----------------------------------------------------------------------------- O3 one iteration solves alpha-system
 
 def check_increment_system(ck, I):
-    ncases = 30 if ck.tier == 'quick' else 150
+    ncases = 30 if ck.tier == 'quick' else 400
     worst = 0.0
     worst_e = 0.0
     ntimeouts = 0
@@ -661,7 +661,7 @@ def check_converged_runs(ck, I):
         ncases = 60
     else:
         Ls = [1, 2, 3, 4, 5, 6, 8, 12, 16]
-        ncases = 480
+        ncases = 1200
     kinds = ['dahl', 'dahl', 'dahl_imex', 'heat', 'heatf', 'adv']
     worst = 0.0
     worst_iter_ratio = 0.0
